@@ -34,10 +34,38 @@
     token's span and `es` ends at or before its start; `found = EndOfText`
     implies no kept token remains.  (`end_of_text` never reports
     `found = EndOfText`: a stream that stops early is `UnrecognizedToken`.)
+  * `C13_run_unexpected` (and `_inv`, `_new`, `_on`) — the same for COMPOSITE
+    parsers, every grammar of `G` (sequencing, choice, option, repetition,
+    filter scoping, sub-lexing, capture, `recover`, `stabilize`, `bracket`,
+    `list`, `up_to`, context wrappers), any fuel / context / world, for a
+    well-formed lexer (`LexIter.Inv`; every lexer related by `Abs`, every fresh
+    lexer) under the scanner contract `ScanOK` only.  Let `raw` be the raw token
+    stream from the lexer's position on.  Every error the run returns, and every
+    error it appends to the sink log (`log' = log ++ new`), if it is an
+    `UnexpectedToken { es, ts, exp, found }`, comes with a filter `f` — the
+    lexer's own or one installed by a `filter_with` / `unfiltered` node of the
+    grammar — and a byte offset `c` with `es.e ≤ c` (the cursor of the lexer at
+    which a primitive looked for its token) such that:
+    `found = Token t` ⇒ some `r ∈ raw` has `r.tok = t`, `ts` is exactly
+    `[r.start, r.stop)`, `c ≤ r.start` (so `es` ends at or before `ts`), `f`
+    keeps `r` and rejects every raw token starting in `[c, r.start)` — `t` is the
+    first token from `c` on that the filter in force keeps;
+    `found = EndOfText` ⇒ `f` rejects every raw token starting at or after `c`.
+    Bracket errors come along: `Unclosed`, `Unopened`, `Mismatch` (both spans)
+    and `NoneFound` at an abort token carry exactly the span of a kept raw token;
+    `NoneFound` at the end of the stream carries an empty span.
+  * `C13_run_unexpected_kept`, `C13_run_unexpected_peg` — for grammars that
+    install no filter (`filtersOf g = []`: all of `pegWithRep`, and also
+    `recover` / `stabilize` / `bracket` / `list` / `sub` … over such bodies) the
+    same against the KEPT stream `K` of the original lexer (`s.view` for a lexer
+    related to the reference state `s`): `found = Token t` ⇒ `t` is the first
+    token of `K` starting at or after `c`, `ts` exactly its span;
+    `found = EndOfText` ⇒ no token of `K` starts at or after `c`.
 -/
 import TephraModel.Run
 import TephraProofs.RunSpans
 import TephraProofs.LeafUnexpected
+import TephraProofs.ErrorOrigin
 
 namespace Tephra.Props
 open Tephra
@@ -144,6 +172,107 @@ theorem C13_leaf_unexpected (ok : ScanOK R.E m len) (hp : PassOK R.E) {lx : Lx} 
     Unexp lx (leafStop g s) es ts found :=
   leaf_unexpected ok hp a n g hg ctx W h
 
+/-! ### unexpected-token clauses of composite parsers: all of `G` -/
+
+open ErrOrigin LexIter
+
+/-- `UnexpOK E raw F` on an `UnexpectedToken`, unfolded (so that the statements below can be read here). -/
+theorem C13_UnexpOK_unexp_iff (E : LexEnv Nat Tok) (raw : List (RawTok Tok)) (F : Option Nat → Prop)
+    (es ts : Span) (exp : Expected) (found : Found) :
+    UnexpOK E raw F (.unexp es ts exp found) ↔
+      ∃ f c, F f ∧ es.e.byte ≤ c ∧
+        (∀ t, found = .token t → ∃ r, r.tok = t ∧ ts = ⟨r.start, r.stop⟩ ∧
+          (r ∈ raw ∧ c ≤ r.start.byte ∧ keepOf E f r.tok = true ∧
+            ∀ x ∈ raw, c ≤ x.start.byte → x.start.byte < r.start.byte → keepOf E f x.tok = false)) ∧
+        (found = .eot → ∀ x ∈ raw, c ≤ x.start.byte → keepOf E f x.tok = false) := Iff.rfl
+
+/-- `UnexpOK` on the bracket errors, unfolded. -/
+theorem C13_UnexpOK_bracket_iff (E : LexEnv Nat Tok) (raw : List (RawTok Tok)) (F : Option Nat → Prop)
+    (s e : Span) :
+    (UnexpOK E raw F (.bracketUnclosed s) ↔ TokSpan E raw F s) ∧
+    (UnexpOK E raw F (.bracketUnopened s) ↔ TokSpan E raw F s) ∧
+    (UnexpOK E raw F (.bracketMismatch s e) ↔ TokSpan E raw F s ∧ TokSpan E raw F e) ∧
+    (UnexpOK E raw F (.bracketNone s) ↔ TokSpan E raw F s ∨ s.s = s.e) ∧
+    (TokSpan E raw F s ↔ ∃ f r, F f ∧ r ∈ raw ∧ keepOf E f r.tok = true ∧ s = ⟨r.start, r.stop⟩) :=
+  ⟨Iff.rfl, Iff.rfl, Iff.rfl, Iff.rfl, Iff.rfl⟩
+
+/-- the filters in force inside a run of `g` from `lx`: the lexer's own, or one `g` installs -/
+theorem C13_FiltersFor_iff (lx : Lx) (g : G) (f : Option Nat) :
+    FiltersFor lx g f ↔ f = lx.filter ∨ f ∈ filtersOf g := Iff.rfl
+
+/-- The plain reading of the token clause: a real token of the source with
+exactly its span, and the parse-so-far span ends at or before it. -/
+theorem C13_unexpected_token_real {E : LexEnv Nat Tok} {raw : List (RawTok Tok)} {F : Option Nat → Prop}
+    {es ts : Span} {exp : Expected} {t : Tok} (h : UnexpOK E raw F (.unexp es ts exp (.token t))) :
+    ∃ r ∈ raw, r.tok = t ∧ ts = ⟨r.start, r.stop⟩ ∧ es.e.byte ≤ ts.s.byte :=
+  UnexpAt.token h
+
+/-- Composite parsers, every grammar: every `UnexpectedToken` returned or newly
+sent to the sink names the first token the filter in force keeps from the
+cursor of the failing primitive on (or end-of-text when none remains). -/
+theorem C13_run_unexpected (ok : ScanOK R.E m len) {lx : Lx} {s : PState} (a : Abs R.E m len lx s)
+    (n : Nat) (g : G) (ctx : Ctx) (W : World) :
+    (∀ e, (run R n g lx ctx W).1 = .err e →
+      UnexpOK R.E (rawAt R.E m len lx.scanner lx.cursor) (FiltersFor lx g) e.body) ∧
+    (∃ new, (run R n g lx ctx W).2.log = W.log ++ new ∧
+      ∀ e ∈ new, UnexpOK R.E (rawAt R.E m len lx.scanner lx.cursor) (FiltersFor lx g) e.body) :=
+  run_unexp_inv ok (a.filter ▸ a.inv) n g ctx W
+
+/-- The same from the lexer invariant alone (no reference state, no assumption on the filter table). -/
+theorem C13_run_unexpected_inv (ok : ScanOK R.E m len) {lx : Lx} (i : Inv R.E m len lx.filter lx)
+    (n : Nat) (g : G) (ctx : Ctx) (W : World) :
+    (∀ e, (run R n g lx ctx W).1 = .err e →
+      UnexpOK R.E (rawAt R.E m len lx.scanner lx.cursor) (FiltersFor lx g) e.body) ∧
+    (∃ new, (run R n g lx ctx W).2.log = W.log ++ new ∧
+      ∀ e ∈ new, UnexpOK R.E (rawAt R.E m len lx.scanner lx.cursor) (FiltersFor lx g) e.body) :=
+  run_unexp_inv ok i n g ctx W
+
+/-- The same from a fresh lexer: `raw` is the whole raw stream of the text, the
+filter in force is `none` or one the grammar installs. -/
+theorem C13_run_unexpected_new (ok : ScanOK R.E m len) (s0 : Nat) (n : Nat) (g : G) (ctx : Ctx) (W : World) :
+    (∀ e, (run R n g (Lexer.new s0 m len) ctx W).1 = .err e →
+      UnexpOK R.E (rawAt R.E m len s0 Pos.zero) (fun f => f = none ∨ f ∈ filtersOf g) e.body) ∧
+    (∃ new, (run R n g (Lexer.new s0 m len) ctx W).2.log = W.log ++ new ∧
+      ∀ e ∈ new, UnexpOK R.E (rawAt R.E m len s0 Pos.zero) (fun f => f = none ∨ f ∈ filtersOf g) e.body) :=
+  run_unexp_inv ok (lx := Lexer.new s0 m len) (inv_fresh s0 none) n g ctx W
+
+/-- The invariant form (what the induction proves): for any stream `raw` the
+lexer sits on (`J`: well-formed, filter in `F`, `raw = pre ++ rawAt …` with `pre`
+before the cursor) and any `F` containing the filters the grammar installs, the
+lexer handed back still sits on `raw`, and every error returned or newly logged
+is good. -/
+theorem C13_run_unexpected_on {raw : List (RawTok Tok)} {F : Option Nat → Prop} (ok : ScanOK R.E m len)
+    (n : Nat) (g : G) (lx : Lx) (ctx : Ctx) (W : World) (hg : ∀ f ∈ filtersOf g, F f)
+    (hj : J R.E m len raw F lx) :
+    (∀ v lx', (run R n g lx ctx W).1 = .ok v lx' → J R.E m len raw F lx') ∧
+    (∀ e, (run R n g lx ctx W).1 = .err e → UnexpOK R.E raw F e.body) ∧
+    (∃ new, (run R n g lx ctx W).2.log = W.log ++ new ∧ ∀ e ∈ new, UnexpOK R.E raw F e.body) :=
+  run_unexp ok n g lx ctx W (GF_of_filtersOf g hg) hj
+
+/-- `UnexpKeptOK K` on an `UnexpectedToken`, unfolded. -/
+theorem C13_UnexpKeptOK_unexp_iff (K : List (RawTok Tok)) (es ts : Span) (exp : Expected) (found : Found) :
+    UnexpKeptOK K (.unexp es ts exp found) ↔
+      ∃ c, es.e.byte ≤ c ∧
+        (∀ t, found = .token t → ∃ r ∈ K, r.tok = t ∧ ts = ⟨r.start, r.stop⟩ ∧ c ≤ r.start.byte ∧
+          ∀ x ∈ K, c ≤ x.start.byte → r.start.byte ≤ x.start.byte) ∧
+        (found = .eot → ∀ x ∈ K, x.start.byte < c) := Iff.rfl
+
+/-- Grammars that install no filter, against the kept stream of the original lexer. -/
+theorem C13_run_unexpected_kept (ok : ScanOK R.E m len) {lx : Lx} (i : Inv R.E m len lx.filter lx)
+    (n : Nat) (g : G) (hg : filtersOf g = []) (ctx : Ctx) (W : World) :
+    (∀ e, (run R n g lx ctx W).1 = .err e → UnexpKeptOK (BracketRefine.kept R.E m len lx) e.body) ∧
+    (∃ new, (run R n g lx ctx W).2.log = W.log ++ new ∧
+      ∀ e ∈ new, UnexpKeptOK (BracketRefine.kept R.E m len lx) e.body) :=
+  run_unexp_kept ok i n g hg ctx W
+
+/-- The PEG fragment on which `run` refines `Spec.peg`, against the view of the reference state. -/
+theorem C13_run_unexpected_peg (ok : ScanOK R.E m len) (hp : PassOK R.E) {lx : Lx} {s : PState}
+    (a : Abs R.E m len lx s) (n : Nat) (g : G) (hg : pegWithRep g = true) (ctx : Ctx) (W : World) :
+    (∀ e, (run R n g lx ctx W).1 = .err e → UnexpKeptOK s.view e.body) ∧
+    (∃ new, (run R n g lx ctx W).2.log = W.log ++ new ∧ ∀ e ∈ new, UnexpKeptOK s.view e.body) := by
+  rw [← kept_eq_view hp a]
+  exact run_unexp_kept ok (a.filter ▸ a.inv) n g (filtersOf_pegWithRep g hg) ctx W
+
 /-! ### non-vacuity: a one-token text -/
 
 /-- a scanner for a one-byte text: one token of kind 0 at position zero -/
@@ -200,5 +329,62 @@ example : ∃ (lx : Lx) (s : PState), ScanOK oneEnv.E (⟨.lf, 4⟩ : Metrics) 1
     (run oneEnv 1 (.one 1) lx ⟨false, [], false⟩ World.init).1 =
       .err ⟨[], .unexp ⟨Pos.zero, Pos.zero⟩ ⟨Pos.zero, ⟨1, 0, 1⟩⟩ (.token 1) (.token ⟨0, 0⟩)⟩ :=
   ⟨_, _, oneScan_ok _, fun _ _ => rfl, abs_new 0 (fun _ _ => rfl), one_fails _ _ _⟩
+
+/-! ### non-vacuity of the composite clauses: the text `a b` -/
+
+open PegRefine.Witness
+
+/-- `both(one 0, either(one 1, one 2))`: the first token is taken, both alternatives
+fail on the second one (the whitespace token, no filter). -/
+def gComposite : G := .both (.one 0) (.either (.one 1) (.one 2))
+
+set_option maxRecDepth 4000 in
+theorem gComposite_fails (ctx : Ctx) (W : World) :
+    (run RW 3 gComposite (Lexer.new 0 mW 3) ctx W).1 =
+      .err ⟨[], .unexp ⟨⟨0, 0, 0⟩, ⟨1, 0, 1⟩⟩ ⟨⟨1, 0, 1⟩, ⟨2, 0, 2⟩⟩ (.token 2) (.token ⟨12, 0⟩)⟩ := by
+  simp [gComposite, run, RW, EW, scanW, mW, Lexer.new, Lexer.next, Lexer.nextLoop, Lexer.filtered, Pos.zero,
+    Lexer.parseSpan, Lexer.tokenSpan, Span.enclosing, mkErr]
+
+/-- Non-vacuity of `C13_run_unexpected*`: the hypotheses hold (scanner contract,
+related lexer, `pegWithRep`, no filter installed) and the composite fails on its
+second token with an `UnexpectedToken` whose found token is the second raw token
+with exactly its span `[1,2)`, after the parse-so-far span `[0,1)`. -/
+example : ScanOK RW.E mW 3 ∧ PassOK RW.E ∧ Abs RW.E mW 3 (Lexer.new 0 mW 3) (stateOf 3 rawW Pos.zero none) ∧
+    pegWithRep gComposite = true ∧ filtersOf gComposite = [] ∧
+    (run RW 3 gComposite (Lexer.new 0 mW 3) ctxW World.init).1 =
+      .err ⟨[], .unexp ⟨⟨0, 0, 0⟩, ⟨1, 0, 1⟩⟩ ⟨⟨1, 0, 1⟩, ⟨2, 0, 2⟩⟩ (.token 2) (.token ⟨12, 0⟩)⟩ ∧
+    (⟨⟨12, 0⟩, ⟨1, 0, 1⟩, ⟨2, 0, 2⟩⟩ : RawTok Tok) ∈ rawAt RW.E mW 3 0 Pos.zero :=
+  ⟨scanW_ok, passW, by rw [← rawW_eq]; exact abs_new 0 passW, rfl, rfl, gComposite_fails _ _,
+    by rw [show RW.E = EW from rfl, rawW_eq]; simp [rawW]⟩
+
+/-- and what the theorem then says about that error -/
+example : ∃ r ∈ rawAt RW.E mW 3 0 Pos.zero, r.tok = ⟨12, 0⟩ ∧
+    (⟨⟨1, 0, 1⟩, ⟨2, 0, 2⟩⟩ : Span) = ⟨r.start, r.stop⟩ ∧ (1 : Nat) ≤ 1 := by
+  have h := (C13_run_unexpected_new (R := RW) scanW_ok 0 3 gComposite ctxW World.init).1 _ (gComposite_fails _ _)
+  exact C13_unexpected_token_real h
+
+/-- a composite that SENDS the error of a primitive to the sink: `recover` around
+`one 2`, with a sink; the error is logged, the parse recovers before the token of kind 1 -/
+def gSink : G := .both (.one 0) (.recover 1 0 (.one 2) (.before 1))
+
+set_option maxRecDepth 8000 in
+theorem gSink_logs :
+    (run RW 4 gSink (Lexer.new 0 mW 3) ⟨true, [], false⟩ World.init).2.log =
+      [⟨[], .unexp ⟨⟨0, 0, 0⟩, ⟨1, 0, 1⟩⟩ ⟨⟨1, 0, 1⟩, ⟨2, 0, 2⟩⟩ (.token 2) (.token ⟨12, 0⟩)⟩] := by
+  simp [gSink, run, recoverDefault, sendError, Ctx.apply, World.register, World.init, RW, EW, scanW, mW, Lexer.new,
+    Lexer.next, Lexer.nextLoop, Lexer.filtered, Pos.zero, Lexer.parseSpan, Lexer.tokenSpan, Span.enclosing, mkErr,
+    advanceToRecover, Lexer.setRecoverState, recoverLoop, askRecover, Lexer.peek, Lexer.bufferNext, Lexer.bufferLoop]
+
+/-- Non-vacuity of the sink clause: the new part of the log is non-empty and the
+theorem applies to its entry. -/
+example : ∃ e ∈ (run RW 4 gSink (Lexer.new 0 mW 3) ⟨true, [], false⟩ World.init).2.log,
+    UnexpOK RW.E (rawAt RW.E mW 3 0 Pos.zero) (fun f => f = none ∨ f ∈ filtersOf gSink) e.body ∧
+    ∃ es ts exp t, e.body = .unexp es ts exp (.token t) := by
+  obtain ⟨new, h1, h2⟩ := (C13_run_unexpected_new (R := RW) scanW_ok 0 4 gSink ⟨true, [], false⟩ World.init).2
+  have hnew : new = (run RW 4 gSink (Lexer.new 0 mW 3) ⟨true, [], false⟩ World.init).2.log := by
+    rw [h1]; simp [World.init]
+  rw [gSink_logs] at hnew
+  refine ⟨_, by rw [gSink_logs]; exact List.mem_singleton.mpr rfl, h2 _ (by rw [hnew]; exact List.mem_singleton.mpr rfl),
+    _, _, _, _, rfl⟩
 
 end Tephra.Props
